@@ -10,6 +10,9 @@ use rand::Rng;
 use std::collections::HashMap;
 
 pub fn pick_input(parser: &str, mode: &str, rng: &mut StdRng) -> Vec<u8> {
+    if mode == "robust" && (parser == "aig" || parser == "aag") && rng.gen_range(0..4) == 0 {
+        return gen::gen_aiger_bounds(parser == "aig", rng);
+    }
     let base = if rng.gen_range(0..4) == 0 {
         let s = gen::seeds(parser);
         s[rng.gen_range(0..s.len())].clone()
